@@ -21,6 +21,17 @@ var schedPlans = map[string][]string{
 	"C20": {"X-"},
 }
 
+type genPlan struct {
+	kind                      string
+	cfg                       Config
+	quickDepth, thoroughDepth int
+	thoroughOnly              bool
+}
+
+var genPlans = map[string][]genPlan{
+	"C13": {{kind: "registry", quickDepth: 4, thoroughDepth: 6}},
+}
+
 const (
 	ruleSeq   = "explicit-state BFS over operation sequences of the real implementation: every alphabet operation applied in every canonical state reached within the depth bound; a case is one (state, operation) transition, distinct by canonical pre-state x operation"
 	ruleSched = "stateless DFS over thread interleavings of the real implementation under a controlled scheduler: every schedule of each closed scenario with at most <bound> deviations from the default (run-to-block, lowest thread id) schedule; a case is one complete execution, distinct by its choice list; states = distinct observable outcomes"
@@ -78,6 +89,23 @@ func RunCheck(prop, tier string, procs int, budget time.Duration) int {
 		}
 		RunSchedMany(rep, pool, ScenarioNames(prefixes...), bound, deadline)
 	}
+	if gp, ok := genPlans[prop]; ok {
+		known = true
+		if rep.Rule == "" {
+			rep.Rule = ruleSeq
+		}
+		for _, g := range gp {
+			d := g.quickDepth
+			tierN := 0
+			if !quick {
+				d, tierN = g.thoroughDepth, 1
+			}
+			if g.thoroughOnly && quick {
+				continue
+			}
+			RunGenBFS(rep, pool, g.kind, g.cfg, d, tierN, deadline)
+		}
+	}
 	if !known {
 		fmt.Printf("no check registered for %s\n", prop)
 		return 2
@@ -132,6 +160,9 @@ func Replay(w Witness) int {
 	}
 	if kind.Kind == "sched" {
 		return ReplaySched(w)
+	}
+	if kind.Kind == "gen" {
+		return ReplayGen(w)
 	}
 	fmt.Println("unknown replay kind", kind.Kind)
 	return 2
